@@ -2,6 +2,7 @@ package rules
 
 import (
 	"fmt"
+	"go/token"
 	"go/types"
 
 	"golang.org/x/tools/go/ssa"
@@ -329,22 +330,20 @@ func domKeyMatch(r *engine.Run, rule string) {
 		// (1) this leaf is the entry
 		engine.Instrs(f, func(in ssa.Instruction) {
 			switch x := in.(type) {
-			case *ssa.Return:
-				if name != "getNodeValueRaw" || len(x.Results) != 2 || !nilConst(x.Results[1]) {
+			case *ssa.Call:
+				g := x.Call.StaticCallee()
+				if g == nil {
 					return
 				}
-				src, ok := stripConv(x.Results[0]).(*ssa.Call)
-				if !ok || src.Call.StaticCallee() == nil || src.Call.StaticCallee().Name() != "GetValueBytes" || len(src.Call.Args) == 0 {
-					return
-				}
-				n++
-				switch {
-				case src.Call.Args[0] == leaf:
-					exact, _, _ := matchedWhole(f, x.Block(), path, leaf)
-					r.Check(exact, rule, o.next(fn(f)+"|leaf value returned"), r.P.Pos(x.Pos()), "a leaf's value is returned only where leaf path == remaining path tested true",
-						"the lookup returns a leaf's value on a path where the leaf's path was not established to equal the remaining path: a lookup of one key answers with another key's value")
-				default:
-					// a branch's own value: the path is used up
+				if name == "getNodeValueRaw" && g.Name() == "GetValueBytes" && len(x.Call.Args) == 1 {
+					// the lookup reads the value of the node at the position only where that node is the entry
+					n++
+					if x.Call.Args[0] == leaf {
+						exact, _, _ := matchedWhole(f, x.Block(), path, leaf)
+						r.Check(exact, rule, o.next(fn(f)+"|leaf value returned"), r.P.Pos(x.Pos()), "a leaf's value is read only where leaf path == remaining path tested true",
+							"the lookup takes a leaf's value on a path where the leaf's path was not established to equal the remaining path: a lookup of one key answers with another key's value")
+						return
+					}
 					used := false
 					if facts, ok := engine.FactsOn(f, x.Block()); ok {
 						for _, ft := range facts {
@@ -353,12 +352,8 @@ func domKeyMatch(r *engine.Run, rule string) {
 							}
 						}
 					}
-					r.Check(used, rule, o.next(fn(f)+"|branch value returned"), r.P.Pos(x.Pos()), "a branch's own value is returned only where len(path) == 0 tested true",
-						"the lookup returns a branch's own value although the remaining path is not used up: every key below that branch answers with the branch's value")
-				}
-			case *ssa.Call:
-				g := x.Call.StaticCallee()
-				if g == nil {
+					r.Check(used, rule, o.next(fn(f)+"|branch value returned"), r.P.Pos(x.Pos()), "a branch's own value is read only where len(path) == 0 tested true",
+						"the lookup takes a branch's own value although the remaining path is not used up: every key below that branch answers with the branch's value")
 					return
 				}
 				hasNode := false
@@ -478,7 +473,8 @@ func domKeyMatch(r *engine.Run, rule string) {
 				fmt.Sprintf("the walk continues below an extension on a path where the extension's whole path was not established to be a prefix of the remaining path (matched: %v), or it does not continue with exactly what is left after the extension's path (%v): a key that diverges inside the extension is looked up, stored or deleted below it, i.e. another key's entry is returned, overwritten or removed", exact || prefix, remOK))
 		})
 	}
-	if n < 8 {
+	n += domKeyMatchExhausted(r, rule)
+	if n < 10 {
 		r.Anchor(rule, fmt.Errorf("unresolved anchor: only %d entry decisions found in lookup/insert/delete at node", n))
 	}
 }
@@ -862,4 +858,193 @@ func domChildCount(r *engine.Run, rule string) {
 	if n < 4 {
 		r.Anchor(rule, fmt.Errorf("unresolved anchor: only %d branch-dissolving decisions found in deleteAtNode/deleteAfterPathTraversal", n))
 	}
+}
+
+// ---- DOM-keymatch, exhausted path ---------------------------------------------------------
+
+// When the path is used up at a leaf, that leaf is the entry only if its own
+// path is empty; a leaf that still has path elements is another key's entry.
+func domKeyMatchExhausted(r *engine.Run, rule string) int {
+	n := 0
+	// (a) insertAfterPathTraversal overwrites the leaf in place only where its path is empty
+	if f := r.Fn(rule, pkgUtil, "MerklePatriciaTrie", "insertAfterPathTraversal"); f != nil {
+		node := mptNodeParam(f)
+		leaf := asserted(f, node, "LeafNode")
+		o := ord{}
+		if node != nil && leaf != nil {
+			engine.Instrs(f, func(in ssa.Instruction) {
+				c, ok := in.(*ssa.Call)
+				if !ok || c.Call.StaticCallee() == nil || c.Call.StaticCallee().Name() != "insertLeaf" {
+					return
+				}
+				replaces, keeps := false, false
+				for _, a := range c.Call.Args {
+					if a == node {
+						replaces = true
+					}
+					if isPathOf(a, leaf) {
+						keeps = true
+					}
+				}
+				if !replaces || !keeps {
+					return
+				}
+				n++
+				empty := false
+				if facts, ok := engine.FactsOn(f, c.Block()); ok {
+					for _, ft := range facts {
+						if ft.Kind == "eq" && ft.Truth && (isLenOfField(ft.A, leaf) && isZero(ft.B) || isLenOfField(ft.B, leaf) && isZero(ft.A)) {
+							empty = true
+						}
+					}
+				}
+				r.Check(empty, rule, o.next(fn(f)+"|leaf updated"), r.P.Pos(c.Pos()), "at an exhausted path the leaf is overwritten in place only where len(leaf path) == 0 tested true",
+					"the path is used up at a leaf and the leaf is overwritten in place although it was not established that the leaf's own path is empty: storing a key that is a proper prefix of another key replaces that other key's entry")
+			})
+		}
+	}
+	// (b) a leaf is removed at an exhausted path only where its path is empty (or equals the remaining path)
+	g := r.Fn(rule, pkgUtil, "MerklePatriciaTrie", "deleteAfterPathTraversal")
+	if g == nil {
+		return n
+	}
+	gnode := mptNodeParam(g)
+	gleaf := asserted(g, gnode, "LeafNode")
+	inside := false
+	if gleaf != nil {
+		engine.Instrs(g, func(in ssa.Instruction) {
+			c, ok := in.(*ssa.Call)
+			if !ok || c.Call.StaticCallee() == nil || c.Call.StaticCallee().Name() != "deleteNode" || !leafArm(g, c.Block(), gleaf) {
+				return
+			}
+			if facts, ok := engine.FactsOn(g, c.Block()); ok {
+				for _, ft := range facts {
+					if ft.Kind == "eq" && ft.Truth && (isLenOfField(ft.A, gleaf) && isZero(ft.B) || isLenOfField(ft.B, gleaf) && isZero(ft.A)) {
+						inside = true
+					}
+				}
+			}
+		})
+	}
+	cg := r.P.RepoCG()
+	o := ord{}
+	for _, e := range cg.In[g] {
+		c, ok := e.Site.(*ssa.Call)
+		if !ok || c.Call.StaticCallee() != g {
+			continue
+		}
+		f := c.Parent()
+		n++
+		cons := o.next(fn(f) + "|leaf removed at exhausted path")
+		if inside {
+			r.OK(rule, cons, r.P.Pos(c.Pos()), "deleteAfterPathTraversal itself removes a leaf only where len(leaf path) == 0 tested true")
+			continue
+		}
+		var narg ssa.Value
+		for i, p := range g.Params {
+			if ssa.Value(p) == gnode && i < len(c.Call.Args) {
+				narg = c.Call.Args[i]
+			}
+		}
+		path := mptPathParam(f)
+		// the leaf view of the node in the caller
+		var okAtom string
+		var lf ssa.Value
+		engine.Instrs(f, func(in ssa.Instruction) {
+			ta, isTA := in.(*ssa.TypeAssert)
+			if !isTA || ta.X != narg || !ta.CommaOk || !isNamedPtr(ta.AssertedType, "LeafNode") {
+				return
+			}
+			for _, ref := range engine.Referrers(ta) {
+				if ex, ok := ref.(*ssa.Extract); ok {
+					if ex.Index == 1 {
+						okAtom = engine.ValKey(ex)
+					} else {
+						lf = ex
+					}
+				}
+			}
+		})
+		good := false
+		why := "the caller never looks at whether the node is a leaf with path elements of its own"
+		if okAtom != "" && lf != nil {
+			// atom keys that establish "this leaf is the entry"
+			type want struct {
+				key   string
+				truth bool
+			}
+			var okKeys []want
+			engine.Instrs(f, func(in ssa.Instruction) {
+				switch x := in.(type) {
+				case *ssa.BinOp:
+					lenLeft := isLenOfField(x.X, lf) && isZero(x.Y)
+					lenRight := isLenOfField(x.Y, lf) && isZero(x.X)
+					if !lenLeft && !lenRight {
+						return
+					}
+					// truth of the comparison under which len(leaf path) == 0 holds
+					var whenTrue bool
+					switch x.Op {
+					case token.EQL:
+						whenTrue = true
+					case token.NEQ:
+						whenTrue = false
+					case token.GTR: // len > 0  |  0 > len (never)
+						if !lenLeft {
+							return
+						}
+						whenTrue = false
+					case token.LSS: // 0 < len
+						if !lenRight {
+							return
+						}
+						whenTrue = false
+					case token.LEQ: // len <= 0
+						if !lenLeft {
+							return
+						}
+						whenTrue = true
+					case token.GEQ: // 0 >= len
+						if !lenRight {
+							return
+						}
+						whenTrue = true
+					default:
+						return
+					}
+					key, pos := engine.CondAtom(x)
+					okKeys = append(okKeys, want{key, whenTrue == pos})
+				case *ssa.Call:
+					if isBytesEq(x) && len(x.Call.Args) == 2 && path != nil {
+						a, b := stripConv(x.Call.Args[0]), stripConv(x.Call.Args[1])
+						if (isPathOf(a, lf) && b == path) || (isPathOf(b, lf) && a == path) {
+							okKeys = append(okKeys, want{engine.ValKey(x), true})
+						}
+					}
+				}
+			})
+			if paths, ok := engine.PathFacts(f, c.Block(), 4096); ok {
+				good = true
+				for _, p := range paths {
+					isLeaf, known := p[okAtom]
+					if known && !isLeaf {
+						continue
+					}
+					est := false
+					for _, k := range okKeys {
+						if v, had := p[k.key]; had && v == k.truth {
+							est = true
+						}
+					}
+					if !est {
+						good = false
+						why = "on some path the node may be a leaf whose own path was not established to be empty (or equal to the remaining path)"
+					}
+				}
+			}
+		}
+		r.Check(good, rule, cons, r.P.Pos(c.Pos()), "a leaf reaches the removal at an exhausted path only where its own path tested empty (or equal to the remaining path)",
+			why+": deleting a key that is a proper prefix of another key removes that other key's entry")
+	}
+	return n
 }
